@@ -906,6 +906,7 @@ class Emitter:
         if name.startswith('llvm.memcpy') or name.startswith('llvm.memmove'):
             d, s, n = cx(args[0]), cx(args[1]), args[2]
             fn = 'memmove' if 'memmove' in name else 'memcpy'
+            if self.opts.get('store_hook'): A('VERIF_STORE(%s, 1);' % d)
             if n.k == 'int':
                 src = args[1]
                 while src.k == 'cexpr': src = src.b[0]
@@ -919,6 +920,7 @@ class Emitter:
             return
         if name.startswith('llvm.memset'):
             d, v, n = cx(args[0]), cx(args[1]), args[2]
+            if self.opts.get('store_hook'): A('VERIF_STORE(%s, 1);' % d)
             if n.k == 'int':
                 if n.a: A('memset(%s, %s, %d);' % (d, v, n.a))
             else:
@@ -1096,6 +1098,21 @@ class Emitter:
         out += gdecls + protos + va
         for (mn, n) in STDT: out.append('#define VERIF_TID_%s %d' % (mn, self.tids[n]))
         for u in uses: out.append('#define USES_%s 1' % u)
+        if self.opts.get('store_hook'):
+            mut = []
+            for n in sorted(self.rg):
+                g = m.globals[n]
+                if n.startswith('_ZTI') or n.startswith('llvm.') or g.const or g.init is None: continue
+                if n.startswith('_ZGV'): continue          # guard variables of function-local statics (ABI-serialised)
+                mut.append(self.gn(n))
+            out.append('/* C19: every store executed inside the operation window must not hit a mutable module-level object */')
+            out.append('static void verif_store_check(const void *p) {')
+            out.append('  if (!verif_symbolic || verif_guard_depth) return;')
+            for g in mut:
+                out.append('  VERIF_ASSERT(__CPROVER_POINTER_OBJECT(p) != __CPROVER_POINTER_OBJECT(&%s), "SHARED-WRITE: store into mutable global %s");' % (g, g))
+            out.append('}')
+            out.append('#define VERIF_STORE(p, n) verif_store_check((const void *)(p))')
+            out.append('/* mutable globals watched: %s */' % ' '.join(mut))
         out.append('#include "verif_models.h"')
         out += shims + gdefs + [''] + fbodies
         out.append('static void verif_exc_destroy(s32 tid, void *obj) {')
